@@ -466,6 +466,45 @@ func extractGrpcBroker(p *pkgs, f *facts) {
 	} else {
 		f.miss = append(f.miss, "GRPCServerMuxer.Accept")
 	}
+	// blockedClientListener.Close: a select with an arm that receives the listener's pending token (`<-<recv>.waitCh`) and,
+	// in that arm, takes a stream off the session (`<recv>.session.Accept()`) and closes it; the select has a default arm
+	// (Close never waits for a token)
+	discards := false
+	if cl := p.fn("blockedClientListener", "Close"); cl != nil && len(cl.Recv.List[0].Names) == 1 {
+		recv := cl.Recv.List[0].Names[0].Name
+		ast.Inspect(cl.Body, func(n ast.Node) bool {
+			sel, ok := n.(*ast.SelectStmt)
+			if !ok {
+				return true
+			}
+			hasDefault, tokenArm := false, (*ast.CommClause)(nil)
+			for _, c := range sel.Body.List {
+				cc := c.(*ast.CommClause)
+				if cc.Comm == nil {
+					hasDefault = true
+					continue
+				}
+				if es, ok := cc.Comm.(*ast.ExprStmt); ok && exprString(es.X) == "<-"+recv+".waitCh" {
+					tokenArm = cc
+				}
+			}
+			if hasDefault && tokenArm != nil {
+				calls := ""
+				for _, st := range tokenArm.Body {
+					calls += " " + nodeCalls(st)
+				}
+				ai := strings.Index(calls, recv+".session.Accept()")
+				if ai >= 0 && strings.Contains(calls[ai:], ".Close()") {
+					discards = true
+				}
+			}
+			return true
+		})
+	} else {
+		f.miss = append(f.miss, "blockedClientListener.Close")
+	}
+	f.lean = append(f.lean, fmt.Sprintf("def grpcMuxClientClose : GrpcMux.ClientCloseParams := ⟨%s⟩", leanBool(discards)))
+	f.set("grpcMuxClientClose", map[string]interface{}{"discardsAnnounced": discards})
 	f.lean = append(f.lean, fmt.Sprintf("def grpcMuxHandoff : GrpcMux.HandoffParams := ⟨%s⟩", leanBool(releasedOnClose)))
 	f.set("grpcMuxHandoff", map[string]interface{}{"handoffBlocks": handoffBlocks, "releasedOnClose": releasedOnClose})
 	// knocksExpire: in Run's knock branch (`msg.Knock != nil && … && !msg.Knock.Ack`) a goroutine `go m.<E>(p, msg)` is
